@@ -31,6 +31,7 @@ static int codes[MAXCALLS], ncodes;
 static int random_codes;
 static int pr[6]; /* per-execution percentages for SKIP POP STOP ERROR INVALID, second-bias */
 
+static int churn_on = 1;
 static json_object *build(int id)
 {
 	tnode *t = &T[id];
@@ -48,16 +49,84 @@ static json_object *build(int id)
 		break;
 	case 'o':
 		t->obj = json_object_new_object();
-		for (int j = 0; j < t->nk; j++)
 		{
-			snprintf(keyname[t->keys[j]], sizeof keyname[0], "k%d", t->keys[j]);
-			json_object_object_add(t->obj, keyname[t->keys[j]], build(t->kids[j]));
+			/* the visited tree is what it is, whatever its containers went through: now and then members and elements
+			 * that do not belong to the tree are added in between and taken out again (tombstones, grown tables,
+			 * deleted-and-re-added members, trimmed arrays) */
+			int churn = churn_on && vh_below(3) == 0 ? 1 + (int)vh_below(30) : 0;
+			char jk[24];
+			for (int c = 0; c < churn; c++)
+			{
+				snprintf(jk, sizeof jk, "junk%d", c);
+				json_object_object_add(t->obj, jk, json_object_new_int(c));
+			}
+			for (int j = 0; j < t->nk; j++)
+			{
+				snprintf(keyname[t->keys[j]], sizeof keyname[0], "k%d", t->keys[j]);
+				if (churn && vh_below(4) == 0)
+				{
+					/* added, deleted, added again (goes to the end each time, as the model expects of the final add) */
+					json_object_object_add(t->obj, keyname[t->keys[j]], json_object_new_string("temporary"));
+					json_object_object_del(t->obj, keyname[t->keys[j]]);
+				}
+				json_object_object_add(t->obj, keyname[t->keys[j]], build(t->kids[j]));
+				if (churn && vh_below(3) == 0)
+				{
+					snprintf(jk, sizeof jk, "mid%d", j);
+					json_object_object_add(t->obj, jk, json_object_new_int(j));
+					json_object_object_del(t->obj, jk);
+				}
+			}
+			if (churn)
+			{
+				/* a random program of adds and deletes over a small pool of other names (slots are reused, tombstones
+				 * come and go, the newest entry is deleted again and again) ... */
+				for (int c = 0; c < 60; c++)
+				{
+					snprintf(jk, sizeof jk, "p%u", vh_below(10));
+					if (vh_below(2))
+						json_object_object_add(t->obj, jk, json_object_new_int(c));
+					else
+						json_object_object_del(t->obj, jk);
+				}
+				for (int c = 0; c < 10; c++)
+				{
+					snprintf(jk, sizeof jk, "p%d", c);
+					json_object_object_del(t->obj, jk);
+				}
+			}
+			for (int c = churn - 1; c >= 0; c--)
+			{
+				snprintf(jk, sizeof jk, "junk%d", c);
+				json_object_object_del(t->obj, jk);
+			}
+			if (churn)
+				/* ... and every member of the tree is stored once more under its own name (a replacement in place) */
+				for (int j = 0; j < t->nk; j++)
+				{
+					json_object *cur = NULL;
+					if (json_object_object_get_ex(t->obj, keyname[t->keys[j]], &cur))
+						json_object_object_add(t->obj, keyname[t->keys[j]], json_object_get(cur));
+					else
+						json_object_object_add(t->obj, keyname[t->keys[j]], json_object_get(T[t->kids[j]].obj));
+				}
 		}
 		break;
 	default:
 		t->obj = json_object_new_array();
-		for (int j = 0; j < t->nk; j++)
-			json_object_array_add(t->obj, build(t->kids[j]));
+		{
+			int pre = churn_on && vh_below(4) == 0 ? 1 + (int)vh_below(3) : 0, post = churn_on && vh_below(4) == 0 ? 1 + (int)vh_below(40) : 0;
+			for (int c = 0; c < pre; c++)
+				json_object_array_add(t->obj, json_object_new_int(c));
+			for (int j = 0; j < t->nk; j++)
+				json_object_array_add(t->obj, build(t->kids[j]));
+			for (int c = 0; c < post; c++)
+				json_object_array_add(t->obj, json_object_new_string("junk"));
+			if (post)
+				json_object_array_del_idx(t->obj, (size_t)pre + (size_t)t->nk, (size_t)post);
+			if (pre)
+				json_object_array_del_idx(t->obj, 0, (size_t)pre);
+		}
 		break;
 	}
 	return t->obj;
